@@ -499,6 +499,7 @@ fn run_isolated_c08(ctx: &Ctx, set: &Set, part: &Part, iso: &Isolation, profile:
             Death::CpuTimeout(s) => format!("did not finish within the CPU budget ({:.0} CPU-seconds)", s),
             Death::Signal(sig, tail) => format!("worker killed by signal {} ({})", sig, tail.lines().last().unwrap_or("").chars().take(160).collect::<String>()),
             Death::Exit(code, tail) => format!("worker exited with {} ({})", code, tail.lines().last().unwrap_or("").chars().take(160).collect::<String>()),
+            Death::Stalled(s) => format!("blocked: the call used no CPU time for {:.0} s and never returned (deadlock)", s),
             Death::WallTimeout => {
                 ctx.add_inconclusive("wall-clock watchdog", 1);
                 return;
